@@ -14,10 +14,13 @@ ApplyPerm(seq, perm) == [i \in 1..Len(seq) |-> seq[perm[i]]]
 AllPerms(n)    == { p \in [1..n -> 1..n] : \A i, j \in 1..n : p[i] = p[j] => i = j }
 AffinePerms(n) == { [i \in 1..n |-> ((a * (i - 1) + b) % n) + 1] : a \in { a \in 1..(n - 1) : GCD(a, n) = 1 }, b \in 0..(n - 1) }
 PermsFor(n)    == IF n <= 5 THEN AllPerms(n) ELSE AffinePerms(n) \cup { [i \in 1..n |-> n + 1 - i] }
-\* duplication modes: 0 none, 1 first element repeated at the end, 2 last element repeated at position 2
+\* duplication modes: 0 none, 1 first element repeated at the end, 2 last element repeated at position 2,
+\*                    3 first element twice in a row, 4 first element repeated at position 3 (repeats among the first three entries)
 WithDup(seq, mode) == CASE mode = 0 -> seq
                         [] mode = 1 -> Append(seq, seq[1])
                         [] mode = 2 -> <<seq[1], seq[Len(seq)]>> \o Tail(seq)
+                        [] mode = 3 -> <<seq[1]>> \o seq
+                        [] mode = 4 -> <<seq[1], seq[2], seq[1]>> \o Tail(Tail(seq))
 
 \* ---- L1
 RECURSIVE Dedupe(_)
